@@ -3,8 +3,15 @@ module gosym
 go 1.23
 
 require (
+	github.com/ontio/ontology-crypto v1.0.9
 	golang.org/x/crypto v0.0.0-20220214200702-86341886e292
 	golang.org/x/tools v0.29.0
+)
+
+require (
+	github.com/btcsuite/btcd v0.21.0-beta // indirect
+	github.com/itchyny/base58-go v0.1.0 // indirect
+	golang.org/x/sys v0.29.0 // indirect
 )
 
 require (
